@@ -211,7 +211,57 @@ def strategy():
     return cases()
 
 
+def _mk_log(events):
+    """[("d", pid, n) | ("c", pid) | ("a", pid) | ("p", n)] -> batch specs (p: non-transactional data)"""
+    specs, seq = [], {}
+    for e in events:
+        if e[0] == "d":
+            specs.append({"fmt": "v2", "kind": "data", "n": e[2], "pid": e[1], "txn": True, "seq": seq.get(e[1], 0), "ts": [3]})
+            seq[e[1]] = seq.get(e[1], 0) + e[2]
+        elif e[0] == "p":
+            specs.append({"fmt": "v2", "kind": "data", "n": e[1], "ts": [4]})
+        else:
+            specs.append({"kind": "commit" if e[0] == "c" else "abort", "pid": e[1]})
+    return specs
+
+
+BOUNDARY_LOGS = [
+    [("d", 1, 2), ("a", 1), ("d", 1, 2), ("c", 1), ("d", 1, 1), ("a", 1), ("d", 1, 2), ("c", 1)],
+    [("d", 1, 2), ("d", 2, 1), ("a", 1), ("d", 1, 1), ("d", 2, 2), ("c", 2), ("c", 1), ("d", 2, 1), ("a", 2), ("d", 2, 2),
+     ("c", 2)],
+    [("p", 2), ("a", 0), ("d", 0, 2), ("c", 0), ("p", 1), ("d", 0, 1), ("d", (1 << 32) + 1, 2), ("a", 0), ("c", (1 << 32) + 1),
+     ("d", 0, 1), ("c", 0)],
+]
+
+
+def boundary_cases(shard, nshards):
+    """Hand-made logs in which a producer aborts and then commits (two producers interleaved; a solitary abort
+    marker), read from EVERY start offset with 1, 2, 3 or all batches per fetch response: every way a response can begin
+    or end inside a transaction, at its marker, or right behind it."""
+    i = 0
+    for li, ev in enumerate(BOUNDARY_LOGS):
+        specs = _mk_log(ev)
+        total = sum(s.get("n", 1) for s in specs)
+        for iso in ("read_committed", "read_uncommitted"):
+            for shape in ([1], [2], [3], [0], [1, 2]):
+                for start in range(total + 1):
+                    for drain in (("getmany", "getone") if start % 2 == 0 else ("getmany",)):
+                        i += 1
+                        if i % nshards != shard:
+                            continue
+                        yield {"cfg": {"mode": "assign", "isolation": iso, "max_partition_fetch_bytes": 1048576,
+                                       "fetch_max_wait_ms": 20, "request_timeout_ms": 400, "retry_backoff_ms": 20,
+                                       "metadata_max_age_ms": 5000, "max_poll_records": None},
+                               "cluster": {"nodes": 1, "fetch_max": 11, "list_offsets_max": 3},
+                               "logs": [{"topic": "t0", "nparts": 1, "partition": 0, "log_start": 0, "batches": specs}],
+                               "tasks": [[["getmany", [0], None, 50]]],
+                               "pre": [["seek", 0, (start + 0.5) / (total + 1)]] if start else [],
+                               "faults": [], "env": [], "shape_batches": shape, "shape_partial": [0], "lat": [0.001],
+                               "chunks": [0], "rng_seed": li, "drain": drain}
+
+
 def campaigns(tier):
     th = tier == "thorough"
-    return [Campaign("isolation_sim", "hyp", execute=execute, strategy=strategy,
+    return [Campaign("response_boundaries", "enum", execute=execute, cases=boundary_cases, exhaustive=True, setup=CS.setup),
+            Campaign("isolation_sim", "hyp", execute=execute, strategy=strategy,
                      examples=30000 if th else 6000, setup=CS.setup, max_wall=900 if th else 100, shrink_wall=40)]
